@@ -86,11 +86,35 @@ Proof.
       * exfalso. pose proof (deferred_stays p None n s EIo) as H. rewrite Hrun in H. now apply H.
 Qed.
 
-Lemma fault_leaves_recoverable s v o k : Run s v -> accepted v o ->
-  run (fst (op_prog v s o)) s = (fst (run (fst (op_prog v s o)) s), None) ->
-  (k < length (fst (op_prog v s o)))%nat -> stops (snd (nth k (fst (op_prog v s o)) (CSync NMani, Must))) ->
-  Safe (fst (run_prog (fst (op_prog v s o)) (Some k) O s None)) (Crash.Model.all_entries v) (op_batch v o).
+(* whatever single call fails — or none — every state the operation passes through is safe *)
+Lemma fault_leaves_recoverable s v o f k : Run s v -> accepted v o ->
+  Safe (fst (run_prog (firstn k (fst (op_prog v s o))) f O s None)) (Crash.Model.all_entries v) (op_batch v o).
+Proof. intros R Ha. destruct (op_walk s v o R Ha) as [Hp _]. apply (Hp f k). Qed.
+
+Lemma fault_leaves_recoverable_end s v o j : Run s v -> accepted v o ->
+  Safe (fst (run_prog (fst (op_prog v s o)) (Some j) O s None)) (Crash.Model.all_entries v) (op_batch v o).
 Proof.
-  intros R Ha Hrun Hk Hm. rewrite (fault_stops_at_prefix _ k s Hrun Hk Hm).
-  destruct (op_walk s v o R Ha) as [Hp _]. apply Hp.
+  intros R Ha. pose proof (fault_leaves_recoverable s v o (Some j) (length (fst (op_prog v s o))) R Ha) as H.
+  now rewrite firstn_all in H.
+Qed.
+
+Lemma open_fault_leaves_recoverable s E f k : Good s E ->
+  Safe (fst (run_prog (firstn k (fst (fst (open_prog s)))) f O s None)) E None.
+Proof. intros Hg. destruct (open_walk s E Hg) as [[Hp _] _]. apply (Hp f k). Qed.
+
+Lemma safe_set_eq s E E' : (forall e, In e E <-> In e E') -> Safe s E None -> Safe s E' None.
+Proof.
+  intros H HS img Hc. destruct (HS img Hc) as [Hr|(p & Hp & _)]; [|discriminate].
+  left. eapply rec_set_eq; eauto.
+Qed.
+
+(* recovery itself: whatever single call of KeyValueStore::open fails, after any history with any
+   crashes, every state it passes through still recovers to acknowledged + whole in-flight batches *)
+Lemma recovery_fault_recoverable c f k : reach c -> c_v c = None ->
+  exists ch, sub ch (c_fly c) /\
+    Safe (fst (run_prog (firstn k (fst (fst (open_prog (c_fs c))))) f O (c_fs c) None)) (concat (c_ack c) ++ concat ch) None.
+Proof.
+  intros Hr Hv. pose proof (inv_reach c Hr) as Hi. unfold inv in Hi. rewrite Hv in Hi.
+  destruct Hi as (E & Hg & (ch & Hsub & HE)). exists ch. split; [exact Hsub|].
+  apply (safe_set_eq _ E); [exact HE|]. now apply open_fault_leaves_recoverable.
 Qed.
